@@ -628,8 +628,10 @@ def c12_jobs(tier):
     for which in range(24):
         for kind in ((0,) if quick else (0, 1)):
             for n in ((2,) if quick else (2, 3)):
+                if kind == 1 and n == 3:
+                    continue
                 jobs.append({"pkg": ZZ, "func": "verif_C12_alg", "args": [which, kind, n], "tag": f"alg which={which} kind={kind} n={n}",
-                             "bfs": True, "max_paths": 24 if quick else 120, "max_wall_ms": 20000 if quick else 120000, "selftest": True})
+                             "bfs": True, "max_paths": 24 if quick else 48, "max_wall_ms": 20000 if quick else 60000, "selftest": True})
                 if which in (0, 1, 2, 3, 4, 5, 6, 18, 19, 20, 22, 23):
                     # iterative routines: also depth first, which follows the convergence loop (the
                     # breadth-first job sees the early exits) until the step bound
